@@ -21,6 +21,8 @@ pub enum InvForm {
     Prefix,
     Infix,
     EqTrue,
+    /// `inv=true` written in front of the operator name
+    PrefixEqTrue,
 }
 #[derive(Clone, Copy, Debug, PartialEq, Eq, Hash)]
 pub enum OmitForm {
@@ -122,6 +124,7 @@ pub fn render_step(bases: &[Base], st: &Step) -> (&'static str, String) {
         InvForm::Prefix => pre.push("inv"),
         InvForm::Infix => mid.push("inv"),
         InvForm::EqTrue => post.push("inv=true"),
+        InvForm::PrefixEqTrue => pre.push("inv=true"),
     }
     let mut sep = "|";
     match st.omit {
@@ -434,7 +437,7 @@ fn enumerate(rep: &Report, bases: &[Base], steps: &[Step], len: usize, label: &s
     rep.add_to("program_spaces", json!({"label": label, "step_variants": a, "length": len, "programs": total}));
 }
 
-const ALL_INV: [InvForm; 5] = [InvForm::None, InvForm::Suffix, InvForm::Prefix, InvForm::Infix, InvForm::EqTrue];
+const ALL_INV: [InvForm; 6] = [InvForm::None, InvForm::Suffix, InvForm::Prefix, InvForm::Infix, InvForm::EqTrue, InvForm::PrefixEqTrue];
 const ALL_OMIT: [OmitForm; 6] = [OmitForm::None, OmitForm::OmitFwd, OmitForm::OmitInv, OmitForm::OmitFwdTrue, OmitForm::Lt, OmitForm::Gt];
 
 pub fn run(tier: Tier) -> Report {
